@@ -22,9 +22,13 @@ class LoopSpec:
     whose sort cannot be read off their value at the loop head; elem: Ty of the iterated values
     when iterating a concrete container of symbolic length."""
 
-    def __init__(self, inv, modifies=(), types=None, elem=None, decreases=None, entry_only=()):
+    def __init__(self, inv, modifies=(), types=None, elem=None, decreases=None, entry_only=(), keeps=()):
         self.inv = inv
-        self.modifies = [tuple(m) for m in modifies]
+        # modifies="world": the body runs opaque user code - every heap field may change except
+        # the frame `keeps` [(ClassName, field)]
+        self.world = modifies == "world"
+        self.keeps = [tuple(k) for k in keeps]
+        self.modifies = [] if self.world else [tuple(m) for m in modifies]
         self.types = types or {}
         self.elem = elem
         self.decreases = decreases
@@ -145,6 +149,11 @@ def for_begin(key, it, locs):
         lp.seq = ks.copy()
         lp.view = "k" if isinstance(it, SymDict) else it.mode
         lp.map = it if isinstance(it, SymDict) else it.d
+    elif type(it).__name__ == "SymVec":
+        lp.seq = _VecSeq(it.copy())
+    elif _range_bounds(it) is not None:
+        # `for x in range(lo, hi)` (step 1): the virtual sequence lo, lo+1, .., hi-1; L.i counts iterations
+        lp.seq = _RangeSeq(*_range_bounds(it))
     else:
         raise OutOfReach(f"loop contract over iterable of type {type(it).__name__}")
     lp.i = 0
@@ -152,9 +161,69 @@ def for_begin(key, it, locs):
     return lp
 
 
+def _range_bounds(it):
+    """(lo, hi) of a step-1 range()/symbolic range, else None"""
+    if isinstance(it, range):
+        return (it.start, it.stop) if it.step == 1 else None
+    if type(it).__name__ == "_SymRange" and getattr(it, "step", None) == 1:
+        return it.lo, it.hi
+    return None
+
+
+class _VecSeq:
+    """the loop cut's view of a SymVec (pyvc/vec.py): elements by array select; L.seq is the SymVec"""
+
+    def __init__(self, v):
+        self.v = v
+        self._elem = v._ty.elem
+
+    def copy(self):
+        return self
+
+    @property
+    def term(self):
+        return self
+
+    def __getitem__(self, idx):
+        return z3.Select(self.v.arr(), idx)
+
+    def _len(self):
+        return self.v._len()
+
+    def __sym_len__(self):
+        return self.v.__sym_len__()
+
+
+class _RangeSeq:
+    """what the loop cut needs of a SymList, for the integers lo..hi-1 (no z3 sequence involved)"""
+    _elem = T.Int
+
+    def __init__(self, lo, hi):
+        self.lo, self.hi = lo, hi
+
+    def copy(self):
+        return self
+
+    @property
+    def term(self):
+        return self
+
+    def __getitem__(self, idx):
+        return _t(self.lo) + idx
+
+    def _len(self):
+        d = _t(self.hi) - _t(self.lo)
+        return z3.If(d > 0, d, z3.IntVal(0))
+
+    def __sym_len__(self):
+        return mk_num(self._len())
+
+
 def _havoc_value(name, v, spec):
     c = _c()
     ty = spec.types.get(name)
+    if ty is not None and not isinstance(ty, T.Ty) and callable(ty):
+        ty = ty()           # lazily resolved type (value classes need the repo imported)
     if ty is not None:
         return ty.fresh(f"lp_{name}")
     if v is UNBOUND or name is None:
@@ -185,7 +254,22 @@ def _havoc_value(name, v, spec):
 def loop_havoc(lp, names, locs):
     c = _c()
     spec = lp.spec
-    c.heap.havoc(keys=set(spec.modifies)) if spec.modifies else None
+    if spec.world:
+        keep = {}
+        for key in spec.keeps:
+            ty = c.heap.tys.get(key)
+            if ty is None:
+                ci = REG.by_name.get(key[0])
+                ty = (ci.fields.get(key[1]) or ci.ghost.get(key[1])) if ci else None
+            if ty is None:
+                raise SpecError(f"loop {lp.key}: unknown frame field {key}")
+            keep[key] = (c.heap.array(key, ty), c.heap.st.key_epoch.get(key, c.heap.st.base_epoch))
+        c.heap.havoc(None)
+        for key, (arr, ep) in keep.items():
+            c.heap.st.arrays[key] = arr
+            c.heap.st.key_epoch[key] = ep
+    else:
+        c.heap.havoc(keys=set(spec.modifies)) if spec.modifies else None
     vals = []
     newlocs = dict(locs)
     for n in names:
@@ -244,6 +328,8 @@ def loop_back(lp, locs):
     mods = set(lp.spec.modifies)
     for key, arr in c.heap.st.arrays.items():
         if key in mods:
+            continue
+        if lp.spec.world and key not in lp.spec.keeps:
             continue
         pre = lp.pre_arrays.get(key)
         if (pre is not None and not pre.eq(arr)) or (pre is None and not z3.is_const(arr)):
